@@ -174,11 +174,21 @@ func propC18(t *rapid.T) {
 		comp := rapid.SampledFrom([]string{"like", "ilike", "ilike"}).Draw(t, "comp")
 		inverse := rapid.IntRange(0, 5).Draw(t, "inverse") == 0
 		tab := hx.Table{Cols: []hx.Col{{Name: "s", Kind: hx.KString, S: cells}, {Name: "e", Kind: hx.KEnum, S: cells}, {Name: "id", Kind: hx.KInt, I: hx.Iota(n)}}}
-		// the enum column: values derived from the data, or declared after 190-220 unused values so that the values in
+		// the enum column: values derived from the data, or declared after 190-220 unused values (or as many as fill the enum up to its 255 values) so that the values in
 		// use get high internal codes (the enum matcher works on a 256-bit set of value codes)
 		fillers := 0
 		if rapid.IntRange(0, 4).Draw(t, "highcodes") == 0 {
 			fillers = rapid.IntRange(190, 220).Draw(t, "fillers")
+			if rapid.Bool().Draw(t, "fullenum") {
+				// exactly the 255 values an enum can hold: the values in use get the last codes there are
+				distinct := map[string]bool{}
+				for _, p := range cells {
+					if p != nil {
+						distinct[*p] = true
+					}
+				}
+				fillers = 255 - len(distinct)
+			}
 			var decl []string
 			for i := 0; i < fillers; i++ {
 				decl = append(decl, fmt.Sprintf("\x02unused-%03d", i))
